@@ -24,7 +24,9 @@ Definition would_conflict (running : list cmd) (deleted : bool) (c : cmd) : bool
       if existsb (fun r => conflicting_kind (c_kind r)) running then true
       else match c_kind c with
            | KAppend | KCheck | KDelete | KMove | KRename => true
-           | KClose | KExpunge => deleted
+           | KClose | KExpunge =>
+               (* nothing to expunge *now*; a STORE that is still running may be about to mark messages \Deleted *)
+               deleted || existsb (fun r => match c_kind r with KStore => true | _ => false end) running
            | KCopy => existsb (fun r => match c_kind r with
                                         | KStore => intersect c r
                                         | KFetch false => intersect c r
@@ -48,18 +50,24 @@ Inductive extent := ENone | ESet (l : list Z) | EAll.
 Record footprint := { f_wlist : bool;      (* changes the message list / numbering *)
                       f_rlist : bool;      (* depends on the message list / numbering *)
                       f_wflags : extent;   (* flags it changes *)
-                      f_rflags : extent }. (* flags it reads *)
+                      f_rflags : extent;   (* flags it reads *)
+                      f_wdel : bool;       (* may change which messages are \Deleted *)
+                      f_rdel : bool }.     (* what it does depends on which messages of the whole mailbox are \Deleted *)
+Definition fp_all : footprint :=
+  {| f_wlist := true; f_rlist := true; f_wflags := EAll; f_rflags := EAll; f_wdel := true; f_rdel := true |}.
+(* EXPUNGE and CLOSE decide what to remove when they RUN, not when they are admitted: with nothing marked
+   \Deleted at admission they still depend on nobody marking anything until they have looked. *)
 Definition fp (deleted : bool) (c : cmd) : footprint :=
   match c_kind c with
-  | KAppend | KCheck | KDelete | KMove | KRename => {| f_wlist := true; f_rlist := true; f_wflags := EAll; f_rflags := EAll |}
-  | KClose | KExpunge => if deleted then {| f_wlist := true; f_rlist := true; f_wflags := EAll; f_rflags := EAll |}
-                         else {| f_wlist := false; f_rlist := false; f_wflags := ENone; f_rflags := ENone |}
-  | KCopy => {| f_wlist := false; f_rlist := true; f_wflags := ENone; f_rflags := ESet (c_set c) |}
-  | KFetch true => {| f_wlist := false; f_rlist := true; f_wflags := ENone; f_rflags := ESet (c_set c) |}
-  | KFetch false => {| f_wlist := false; f_rlist := true; f_wflags := ESet (c_set c); f_rflags := ESet (c_set c) |}
-  | KSearch => {| f_wlist := false; f_rlist := true; f_wflags := ENone; f_rflags := EAll |}
-  | KStore => {| f_wlist := false; f_rlist := true; f_wflags := ESet (c_set c); f_rflags := ESet (c_set c) |}
-  | KNoop | KSelect | KStatus | KExamine => {| f_wlist := false; f_rlist := true; f_wflags := ENone; f_rflags := ENone |}
+  | KAppend | KCheck | KDelete | KMove | KRename => fp_all
+  | KClose | KExpunge => if deleted then fp_all
+                         else {| f_wlist := false; f_rlist := false; f_wflags := ENone; f_rflags := ENone; f_wdel := false; f_rdel := true |}
+  | KCopy => {| f_wlist := false; f_rlist := true; f_wflags := ENone; f_rflags := ESet (c_set c); f_wdel := false; f_rdel := false |}
+  | KFetch true => {| f_wlist := false; f_rlist := true; f_wflags := ENone; f_rflags := ESet (c_set c); f_wdel := false; f_rdel := false |}
+  | KFetch false => {| f_wlist := false; f_rlist := true; f_wflags := ESet (c_set c); f_rflags := ESet (c_set c); f_wdel := false; f_rdel := false |}
+  | KSearch => {| f_wlist := false; f_rlist := true; f_wflags := ENone; f_rflags := EAll; f_wdel := false; f_rdel := true |}
+  | KStore => {| f_wlist := false; f_rlist := true; f_wflags := ESet (c_set c); f_rflags := ESet (c_set c); f_wdel := true; f_rdel := false |}
+  | KNoop | KSelect | KStatus | KExamine => {| f_wlist := false; f_rlist := true; f_wflags := ENone; f_rflags := ENone; f_wdel := false; f_rdel := false |}
   end.
 Definition ext_meet (a b : extent) : bool :=
   match a, b with
@@ -72,7 +80,8 @@ Definition ext_meet (a b : extent) : bool :=
 (* two footprints clash: one changes the list while the other uses it, or one writes flags the other touches *)
 Definition fp_clash (a b : footprint) : bool :=
   (f_wlist a && (f_rlist b || f_wlist b)) || (f_wlist b && (f_rlist a || f_wlist a)) ||
-  ext_meet (f_wflags a) (f_wflags b) || ext_meet (f_wflags a) (f_rflags b) || ext_meet (f_rflags a) (f_wflags b).
+  ext_meet (f_wflags a) (f_wflags b) || ext_meet (f_wflags a) (f_rflags b) || ext_meet (f_rflags a) (f_wflags b) ||
+  (f_wdel a && f_rdel b) || (f_wdel b && f_rdel a).
 
 (* ---- interleavings of atomic steps *)
 Section Interleave.
